@@ -139,8 +139,9 @@ def mk_operand(it, kind, t, label):
         v32 = z3.Int2BV(z3.Int(label + "_lit"), 32)
         conv = v32 if w == 32 else (z3.Extract(w - 1, 0, v32) if w < 32 else z3.SignExt(w - 32, v32))
         it.ctx.assume(o.ghost["den"] == conv)
-    if kind == "Number":
-        # the literal's value is what the node denotes: den == the w-bit pattern of its (in-range) value
+    if kind == "Number" and w <= 64:
+        # the literal's value is what the node denotes (source literals have at most 64 bits; for the wide vector types of the thorough
+        # tier the operand stays opaque - an Int2BV of 1024 bits only costs solver time): den == the w-bit pattern of its (in-range) value
         lit = z3.Int(label + "_lit")
         it.ctx.assume(z3.And(lit >= (-(2 ** (w - 1)) if t[0] else 0), lit < (2 ** (w - 1) if t[0] else 2 ** w)))
         it.ctx.assume(o.ghost["den"] == z3.Int2BV(lit, w))
